@@ -4,6 +4,7 @@ import (
 	"fmt"
 	"go/token"
 	"go/types"
+	"os"
 	"sort"
 	"strings"
 
@@ -156,6 +157,13 @@ func (g *Gen) loopEffects(li loopInfo, h *ssa.BasicBlock) loopEffects {
 						continue
 					}
 					cc := g.contractFor(&s.Call)
+					if cc == nil && callee == nil && !s.Call.IsInvoke() {
+						if spec := staticFnSpec(s.Call.Value); spec != "" { // function value with a behaviour spec
+							if key, ok := g.cs.FieldSpecs[spec]; ok {
+								cc = g.cs.ByKey[key]
+							}
+						}
+					}
 					if callee != nil && g.canInline(callee) && depth < 3 {
 						scanFn(callee, nil, depth+1)
 						continue
@@ -232,6 +240,7 @@ func (g *Gen) havocHs(st *State, written []string, all bool) {
 		}
 	}
 	st.hs = nw
+	g.havocHsf(st, written, all) // the per-field arrays of struct elements follow the same frame
 	for _, r := range st.refs {
 		if rg, ok := g.refRange[r]; ok {
 			g.assume(st, elemRangeFact(nw, r, rg))
@@ -381,6 +390,9 @@ func (g *Gen) execFunc(fn *ssa.Function, st *State, top bool, start *ssa.BasicBl
 				}
 			}
 			le := g.loopEffects(li, b)
+			if os.Getenv("GOVC_TRACE") != "" {
+				fmt.Fprintf(os.Stderr, "loop %d of %s: cells=%d fields=%v elems=%v maps=%v allHeap=%v ghosts=%v allGhost=%v\n", k, fn.Name(), len(le.cells), le.fields, le.elems, le.maps, le.allHeap, le.ghosts, le.allGhost)
+			}
 			for _, a := range le.cells {
 				if _, ok := cur.cells[a]; ok {
 					el := a.Type().(*types.Pointer).Elem()
@@ -565,6 +577,7 @@ func (g *Gen) doReturn(st *State, x *ssa.Return, res []Val) {
 			g.obls[n].Props = e.Props
 		}
 	}
+	g.freshObls(st, env2, x.Pos(), k)
 }
 
 // runDefers splices the deferred closures of fn (reverse registration order), each guarded by its
